@@ -184,3 +184,29 @@ ied_check_small(const uint8_t r[32], const uint8_t h[32], const uint8_t pk[32], 
     return ge25519_has_small_order(&C);
 }
 #endif
+
+/* ---- Ristretto255 encoding layer (abstract): decode / validity / encode / hash-to-group ---- */
+e256_t        __CPROVER_uninterpreted_ris_dec(e256_t s);
+unsigned char __CPROVER_uninterpreted_ris_dec_ok(e256_t s);
+e256_t        __CPROVER_uninterpreted_ris_enc(e256_t p);
+e256_t        __CPROVER_uninterpreted_ris_from_hash(e512_t h);
+
+int
+ristretto255_frombytes(ge25519_p3 *h, const unsigned char *s)
+{
+    setpid(h, __CPROVER_uninterpreted_ris_dec(p256(s)));
+    return (__CPROVER_uninterpreted_ris_dec_ok(p256(s)) & 1) ? 0 : -1;
+}
+void ristretto255_p3_tobytes(unsigned char *s, const ge25519_p3 *h) { u256(s, __CPROVER_uninterpreted_ris_enc(pid(h))); }
+void ristretto255_from_hash(unsigned char s[32], const unsigned char h[64]) { u256(s, __CPROVER_uninterpreted_ris_from_hash(p512(h))); }
+
+int  ied_ris_decode_ok(const uint8_t s[32]) { return __CPROVER_uninterpreted_ris_dec_ok(p256(s)) & 1; }
+void
+ied_ris_addsub_bytes(uint8_t out[32], const uint8_t p_enc[32], const uint8_t q_enc[32], int sub)
+{
+    e256_t P = __CPROVER_uninterpreted_ris_dec(p256(p_enc)), Q = __CPROVER_uninterpreted_ris_dec(p256(q_enc));
+    u256(out, __CPROVER_uninterpreted_ris_enc(sub ? __CPROVER_uninterpreted_ge_sub(P, Q) : __CPROVER_uninterpreted_ge_add(P, Q)));
+}
+void ied_ris_scalarmult_bytes(uint8_t out[32], const uint8_t t[32], const uint8_t p_enc[32]) { u256(out, __CPROVER_uninterpreted_ris_enc(__CPROVER_uninterpreted_ge_mult(p256(t), __CPROVER_uninterpreted_ris_dec(p256(p_enc))))); }
+void ied_ris_base_mult_bytes(uint8_t out[32], const uint8_t t[32]) { u256(out, __CPROVER_uninterpreted_ris_enc(__CPROVER_uninterpreted_ge_base(p256(t)))); }
+void ied_ris_from_hash(uint8_t s[32], const uint8_t h[64]) { u256(s, __CPROVER_uninterpreted_ris_from_hash(p512(h))); }
